@@ -120,6 +120,26 @@ theorem C05_loop_keeps_for_lifetime (m : Mem) (hm : m.Inv) (req : AnnReq) (now c
     AMap.get v.seeders (peerKey req.peer) = some now ∨ AMap.get v.leechers (peerKey req.peer) = some now :=
   C05_reannounce_restarts m hm req now (loopCutoff c life) (by unfold loopCutoff; omega) hns
 
+/-- **In real time.** The cached clock `clk` lags the wall clock by less than its refresh period `P`
+(`t - P < clk t ≤ t`). A membership announced at wall time `A` (so stamped `clk A`) survives every tick
+of the loop at a wall time `R` with `R - A ≤ life - P`, and no tick at a wall time `R` with
+`R - A ≥ life + P` keeps it: the lifetime a client gets is the configured one up to one refresh period
+either way. (Before D25 the cutoff came from the wall clock and the lower bound was `life - P` only in
+the sense that `P` could be lost on top of it.) -/
+theorem C05_loop_real_time (m : Mem) (hm : m.Inv) (clk : Int → Int) (P life A R : Int)
+    (hlag : ∀ t, t - P < clk t ∧ clk t ≤ t) (ih : Bytes) (f : Fam) (pk : Bytes)
+    (hmem : AMap.get (m.view ih f).seeders pk = some (clk A)) :
+    (R - A ≤ life - P → AMap.get ((m.loopTick (clk R) life).view ih f).seeders pk = some (clk A)) ∧
+    (R - A ≥ life + P → AMap.get ((m.loopTick (clk R) life).view ih f).seeders pk ≠ some (clk A)) := by
+  have h := (C05_loop_exact m hm (clk R) life ih f pk (clk A)).1
+  have hA := hlag A; have hR := hlag R
+  constructor
+  · intro hle
+    exact h.mpr ⟨hmem, by omega⟩
+  · intro hge hk
+    have := (h.mp hk).2
+    omega
+
 /-- each per-swarm step of the pass (the unit that interleaves with other requests) removes only
 stale entries: whatever it keeps it had, and whatever it drops has `mtime ≤ cutoff` -/
 theorem C05_step_never_removes_fresh (sw : Swarm) (T : Int) (e : Bytes × Int) :
